@@ -36,6 +36,9 @@ func main() {
 			if len(rejSamples) < 8 {
 				rejSamples[k] = p.Desc + "\n" + src
 			}
+			// every program of the space is valid templ by construction (all of them are accepted on the unchanged
+			// tree): a rejection is the parser or the generator refusing a valid template
+			run.Violation("valid-template-rejected:"+k, fmt.Sprintf("%s: parse+generate+gofmt rejects a valid template: %v\n%s", p.Desc, err, src), map[string]any{"program": p.Desc, "source": src, "error": err.Error()})
 			continue
 		}
 		acc = append(acc, item{p, src})
@@ -44,7 +47,7 @@ func main() {
 		for k, v := range rejSamples {
 			fmt.Fprintf(os.Stderr, "rejected (%s):\n%s\n", k, v)
 		}
-		vlib.Fatal("only %d of %d enumerated templates are accepted by parse+generate+gofmt: the printer is at fault", len(acc), len(progs))
+		run.Capped(fmt.Sprintf("only %d of %d enumerated templates are accepted by parse+generate+gofmt", len(acc), len(progs)))
 	}
 	// batches compiled in parallel
 	nb := 12
